@@ -792,6 +792,10 @@ func (p *ReverseProxy) ServeHTTP(rw bfe_http.ResponseWriter, basicReq *bfe_basic
 	}
 
 response_got:
+	if res.Body == nil {
+		// a module may return a response without body object
+		res.Body = bfe_http.EofReader
+	}
 	// timeout for write response to client
 	// Note: we use io.Copy() to read from backend and write to client.
 	// For avoid from blocking on client conn or backend conn forever,
